@@ -162,7 +162,7 @@ def check(ctx):
 
 
 def _outevent_by_interpretation(ctx) -> bool:
-    """parse_event interpreted (dznverif.scenario, E6) on every event element shape that matters for the two refusals:
+    """parse_event interpreted (dznverif.scenario, E7) on every event element shape that matters for the two refusals:
     direction in / out  x  reply type void / a named type  x  formals: none, in, out, inout, in + out, inout + in.  An out
     event must be refused with DznJsonError exactly when its reply is not void or one of its formals is `out`; everything
     else must parse.  The element is well-formed JSON in every other respect (malformed elements are the business of
